@@ -116,15 +116,54 @@ fn one<X: Sx>(ctx: &Ctx, idx: u64, l: usize, exhaustive_upto: usize) {
     ctx.count("signatures", 1);
 }
 
+/// volume: many fresh proofs of one small statement, generated, encoded, decoded and verified. Completeness failures that
+/// depend on a value shape of the random part (one proof in a few hundred) show here.
+fn volume<X: Sx>(ctx: &Ctx, idx: u64, n: usize) {
+    let mut r = ctx.rng("c03v", idx);
+    let (sk, pk) = keypair::<X>(&mut r);
+    let msgs = gen_messages(&mut r, 3, 0);
+    let sig = Sig::<X>::sign(Some(&msgs), &sk, &pk, None).unwrap().to_bytes();
+    let case = format!("{}/volume", name::<X>());
+    ctx.distinct(&case);
+    let d = [1usize];
+    let dm = vec![msgs[1].clone()];
+    for k in 0..n {
+        let ph = (k as u64).to_le_bytes();
+        let Some(p) = ctx.call("proof_gen", &case, None, || Pok::<X>::proof_gen(&pk, &sig, None, Some(&ph), Some(&msgs), Some(&d))).value else {
+            ctx.violation("C03:proof_gen-failed", json!({"case":case,"k":k}));
+            continue;
+        };
+        let pb = p.to_bytes();
+        match ctx.call("from_bytes", &case, None, || Pok::<X>::from_bytes(&pb)).value {
+            Some(p2) => {
+                let v = ctx.call("proof_verify", &case, None, || p2.proof_verify(&pk, Some(&dm), Some(&d), None, Some(&ph)));
+                if !v.outcome.is_ok() || p2 != p {
+                    ctx.violation("C03:decoded-proof-rejected", json!({"case":case,"k":k,"proof":hx_full(&pb),"sk":hx(&sk.to_bytes()),"outcome":v.outcome.short()}));
+                }
+            }
+            None => ctx.violation("C03:decode-failed", json!({"case":case,"k":k,"proof":hx_full(&pb)})),
+        }
+        ctx.count("volume_proofs_verified", 1);
+    }
+}
+
 pub fn scenarios(ctx: &Ctx) -> Vec<Scenario> {
     let mut v = Vec::new();
+    let nvol = ctx.t(300usize, 3000usize);
+    for i in 0..4u64 {
+        v.push(scenario(format!("sha/volume{i}"), move |c| volume::<Sha>(c, 5000 + i, nvol)));
+        v.push(scenario(format!("shake/volume{i}"), move |c| volume::<Shake>(c, 5100 + i, nvol)));
+    }
     let mut idx = 0u64;
     let ex = ctx.t(8usize, 11usize);
     let mut ls: Vec<(usize, usize)> = Vec::new(); // (L, repetitions)
     for l in 0..=ex {
         ls.push((l, if l <= 5 { ctx.t(3, 8) } else { 1 }));
     }
-    for &l in ctx.t(&[16usize, 64, 257][..], &[12usize, 16, 33, 64, 100, 255, 256, 257, 1000][..]) {
+    // size ladder: around every power of two up to 512 (bitmaps, fixed buffers), around the one-call expansion limits of the
+    // two suites (170 / 1365 scalars of 48 octets), and a few large ones
+    for &l in ctx.t(&[16usize, 31, 32, 33, 63, 64, 65, 127, 128, 129, 166, 171, 257][..],
+                    &[12usize, 15, 16, 17, 31, 32, 33, 63, 64, 65, 100, 127, 128, 129, 165, 166, 170, 171, 255, 256, 257, 511, 512, 513, 1000, 1361, 1400][..]) {
         ls.push((l, ctx.t(1, 2)));
     }
     if ctx.quick() {
